@@ -226,8 +226,8 @@ def check_map_moves(chk, F):
 CHAIN_FILES = ('Chain_matrix.h', 'chain_vine_swap.h', 'chain_pairing.h', 'chain_rep_cycles.h',
                'chain_column_extra_properties.h')
 CHAIN_CONTAINERS = {'pivotToColumnIndex_': ('ID', 'MAT'), 'pivotToPosition_': ('ID', 'POS'), 'matrix_': ('MAT', None),
-                    'positionToIndex_': ('POS', 'MAT')}
-OVERLAY_FILES = ('Position_to_index_overlay.h',)      # position indexing on top of the chain matrix
+                    'positionToIndex_': ('POS', 'MAT'), 'idToIndex_': ('ID', 'MAT')}
+OVERLAY_FILES = ('Position_to_index_overlay.h', 'Id_to_index_overlay.h')      # indexing layers on top of the chain matrix
 
 
 def check_index_kinds(chk, F):
@@ -250,8 +250,9 @@ def check_index_kinds(chk, F):
           f.get('body') is not None]
     if len(ov) < 20:
         raise AnalysisBroken('C06: position overlay not found (%d functions)' % len(ov))
-    chain_only = [f for f in fns if f.get('clsname') == 'Chain_matrix']
-    kc2 = kinds.KindChecker(chain_only, CHAIN_CONTAINERS)
+    chain_only = [f for f in fns if f.get('clsname') in ('Chain_matrix', 'Chain_vine_swap')]
+    kc2 = kinds.KindChecker(chain_only, CHAIN_CONTAINERS, check_returns=True,
+                            extra_sigs={('_id_to_index', 1): (['ID'], 'MAT')})
     for f in ov:
         before, c0 = len(kc2.reports), kc2.checked
         kc2.run(f)
@@ -275,6 +276,104 @@ def check_index_kinds(chk, F):
                '; '.join('line %s: %s' % (nd.get('l'), m) for nd, m, _ in real[:3]),
                key='E11|%s::%s|%s' % (owner, f['name'], real[0][2] if real else ''))
     chk.expect_count('E11-index-kinds', 'kind meetings', kc.checked, 150)
+
+
+ID_ORDER_OK = {
+    'Chain_matrix::remove_last': 'arm without stored positions (no stored barcode): the class has nothing else to go by '
+                                 'and the source documents that identifiers must then increase along the filtration',
+}
+
+
+def check_identifier_order(chk, F):
+    """E11-id-order: a transposition exchanges the positions of two cells and leaves their identifiers alone, so in a
+    matrix with vine updates the order of two identifiers says nothing about the order of the cells. In the chain
+    family no two values of identifier kind are compared with < or > except in an arm compiled without vine updates
+    (exemptions listed with their reason)."""
+    fns = [f for f in F.functions if f['inst'] in (0, 2) and f['file'].split('/')[-1] in CHAIN_FILES and
+           f.get('body') is not None]
+    kc = kinds.KindChecker(fns, CHAIN_CONTAINERS)
+    n = 0
+    total = 0
+    for f in fns:
+        env = {}
+        for p_ in f.get('params', []):
+            env[p_.get('id')] = ('scalar', kc.param_kind(p_), kinds.elem_kind_of_type(p_.get('t')))
+        kc.fn, kc.ret_kind = f, None
+        kc.walk(f['body'], env)
+        par = None
+        for x in ir.walk(f['body']):
+            if x.get('k') not in ('BinaryOperator', 'CXXOperatorCallExpr') or x.get('op') not in ('<', '>', '<=', '>='):
+                continue
+            ab = x['c'] if x['k'] == 'BinaryOperator' else ir.call_args(x)
+            if len(ab) != 2:
+                continue
+            total += 1
+            if kc.kind(ab[0], env) != 'ID' or kc.kind(ab[1], env) != 'ID':
+                continue
+            n += 1
+            par = par or ir.parents(f['body'])
+            vine_off = False
+            cur = x
+            while id(cur) in par:
+                up = par[id(cur)]
+                if up.get('k') == 'IfStmt' and up.get('constexpr'):
+                    t = ir.show(up.get('cond')).replace(' ', '').replace('Master_matrix::Option_list::', '')
+                    if (t == 'has_vine_update' and cur is up.get('else')) or \
+                            (t == '!has_vine_update' and cur is up.get('then')):
+                        vine_off = True
+                cur = up
+            owner = '%s::%s' % (f.get('clsname') or '-', f['name'])
+            ok = vine_off or owner in ID_ORDER_OK
+            chk.ob('E11-id-order', '%s line %s: two identifiers are ordered only where no transposition can have '
+                   'reordered the cells%s' % (owner, x.get('l'), '' if vine_off or not ok else ' (exempt: %s)' %
+                                              ID_ORDER_OK[owner]), '%s:%s' % (rel(f['file']), x.get('l')), ok,
+                   '' if ok else '`%s` orders two cell identifiers in code compiled with vine updates: after a '
+                   'transposition the larger identifier is not the later cell' % ir.show(x)[:80],
+                   key='E11|%s|id-order' % owner)
+    # the identifier overlay: a column index is a position only for boundary-type matrices; for a chain matrix it is a
+    # storage slot (a column keeps it when it moves with its cell), so two column indices are ordered only in the
+    # boundary-type arm
+    ov = [f for f in F.functions if f['inst'] in (0, 2) and f['file'].endswith('Id_to_index_overlay.h') and
+          f.get('body') is not None]
+    kc3 = kinds.KindChecker([g for g in fns if g.get('clsname') in ('Chain_matrix', 'Chain_vine_swap')],
+                            CHAIN_CONTAINERS, extra_sigs={('_id_to_index', 1): (['ID'], 'MAT')})
+    n_slot = 0
+    for f in ov:
+        env = {}
+        for p_ in f.get('params', []):
+            env[p_.get('id')] = ('scalar', kc3.param_kind(p_), kinds.elem_kind_of_type(p_.get('t')))
+        kc3.fn, kc3.ret_kind = f, None
+        kc3.walk(f['body'], env)
+        par = None
+        for x in ir.walk(f['body']):
+            if x.get('k') not in ('BinaryOperator', 'CXXOperatorCallExpr') or x.get('op') not in ('<', '>', '<=', '>='):
+                continue
+            ab = x['c'] if x['k'] == 'BinaryOperator' else ir.call_args(x)
+            if len(ab) != 2 or kc3.kind(ab[0], env) != 'MAT' or kc3.kind(ab[1], env) != 'MAT':
+                continue
+            # loop bounds `i < nextIndex_` enumerate the slots, they do not order two cells
+            if any((ir.skipcasts(y) or {}).get('n') in ('nextIndex_',) for y in ab):
+                continue
+            n_slot += 1
+            par = par or ir.parents(f['body'])
+            boundary_arm = False
+            cur = x
+            while id(cur) in par:
+                up = par[id(cur)]
+                if up.get('k') == 'IfStmt' and up.get('constexpr') and cur is up.get('then') and ir.show(
+                        up.get('cond')).replace(' ', '').endswith('is_of_boundary_type'):
+                    boundary_arm = True
+                cur = up
+            chk.ob('E11-id-order', 'Id_to_index_overlay::%s line %s: two column indices are ordered only where the '
+                   'column index is the position (boundary-type arm)' % (f['name'], x.get('l')),
+                   '%s:%s' % (rel(f['file']), x.get('l')), boundary_arm, '' if boundary_arm else
+                   '`%s` also runs for chain matrices, whose columns keep their index when they move with their cells: '
+                   'the smaller index is not the earlier cell' % ir.show(x)[:60],
+                   key='E11|Id_to_index_overlay::%s|slot-order' % f['name'])
+    chk.expect_count('E11-id-order', 'ordered comparisons of column indices in the identifier overlay', n_slot, 2)
+    chk.count('ordered comparisons inspected in the chain family', total)
+    chk.expect_count('E11-id-order', 'ordered comparisons of identifiers', n, 1)
+    chk.expect_count('E11-id-order', 'ordered comparisons in the chain family', total, 10)
 
 
 def check_last_cell(chk, F):
@@ -383,6 +482,36 @@ def check_overlay_removals(chk, F):
                            key='E2|%s::%s|inverse-lockstep' % (f['clsname'], f['name']))
     chk.expect_count('E2-inverse-lockstep', 'exchanges through a local inverse table', n_sw, 1)
 
+    # (c) position overlay: which column sits at a position after a transposition is only known from the answer of the
+    # underlying vine_swap (columns either move with their cells or stay and exchange pivots): positionToIndex_ is
+    # changed by exchanging two entries under that answer, by appending or by dropping the last - never by copying one
+    # entry over another (a wholesale shift assumes the columns always moved)
+    pfns = [f for f in F.functions if f.get('clsname') == 'Position_to_index_overlay' and f.get('inst') in (0, 2) and
+            f.get('body') is not None]
+    if len(pfns) < 20:
+        raise AnalysisBroken('C06: Position_to_index_overlay not found')
+    n_w = 0
+    for f in pfns:
+        for x in ir.walk(f['body']):
+            t = ir.write_target(x)
+            if t is None or x.get('op') != '=' or not ir.show(t).replace(' ', '').startswith('positionToIndex_['):
+                continue
+            n_w += 1
+            rhs = ir.show(x['c'][1]).replace(' ', '')
+            ok = not rhs.startswith('positionToIndex_[') or f['kind'] in ('ctor', 'copy_ctor', 'move_ctor')
+            chk.ob('E2-position-map', 'Position_to_index_overlay::%s line %s does not copy one entry of positionToIndex_ '
+                   'over another' % (f['name'], x.get('l')), '%s:%s' % (rel(f['file']), x.get('l')), ok, '' if ok else
+                   '`%s`: the entries are shifted before the transpositions have answered whether the columns moved with '
+                   'their cells or exchanged their pivots' % ir.show(x)[:70],
+                   key='E2|Position_to_index_overlay::%s|position-map' % f['name'])
+    swaps_ok = any(f['name'] == 'vine_swap' and ir.contains(f['body'], lambda y: y.get('k') == 'IfStmt' and ir.contains(
+        y.get('then'), lambda z: ir.is_call(z) and ir.call_name(z) == 'swap' and 'positionToIndex_' in ir.show(z)))
+        for f in pfns)
+    if not swaps_ok:
+        raise AnalysisBroken('C06: Position_to_index_overlay::vine_swap no longer exchanges positionToIndex_ entries '
+                             'under the answer of the underlying swap')
+    chk.expect_count('E2-position-map', 'element writes of positionToIndex_', n_w, 2)
+
     fs = [f for f in fns if f['name'] == 'remove_last']
     if len(fs) != 1:
         raise AnalysisBroken('C06: Id_to_index_overlay::remove_last not found')
@@ -479,6 +608,7 @@ def run(tier, replay=None):
     findrule.run(chk, F, ('ru_vine_swap.h', 'chain_vine_swap.h'), {}, 'C06', 2)
     check_overlay_removals(chk, F)
     check_last_cell(chk, F)
+    check_identifier_order(chk, F)
     check_family(chk, F, 'Chain_vine_swap', CH, ['vine_swap', 'vine_swap_with_z_eq_1_case'], 'swap_positions',
                  kept='columnIndex2', exchanged='columnIndex1',
                  sign_vars={'col1IsNeg': (1, '-'), 'col2IsNeg': (2, '-')}, pairing_only=True)
